@@ -683,6 +683,19 @@ def check_seed_reproducible(case):
             # the other way of passing the same seed
             c["rng"] = dict(case["rng"], **{"as": "generator" if case["rng"]["as"] == "int" else "int"})
         eq = make_equation(c, grid, make_rng(c))
+        if rep == 1:
+            # the equation travels through the standard library's duplication first (worker processes,
+            # duplicated realisations; after missed seed C13-7: pickling dropped the generator): the duplicate
+            # carries the generator with its state, so the run draws the same numbers
+            dup = case["rng"]["seed"] % 3
+            if dup == 1:
+                import pickle
+
+                eq = pickle.loads(pickle.dumps(eq))
+            elif dup == 2:
+                import copy
+
+                eq = copy.deepcopy(eq)
         runs.append(np.array(run_solve(eq, state, c, case["t0"], case["n"]).data))
     if runs[0].tobytes() != runs[1].tobytes():
         raise Violation(f"two runs with seed {case['rng']['seed']} differ by {np.max(np.abs(runs[0] - runs[1])):.3g}",
